@@ -75,6 +75,8 @@ PINNED = [
     ("self_receiver", "#[::entrait::entrait(Foo)]\nfn f(\n/*@off*/ &self\n) {}", r"cannot have a self receiver"),
     ("concrete_in_mod", "#[::entrait::entrait(Foo)]\nmod m { pub fn f(d: &\n/*@off*/ Concrete\n) {} }", r"concrete dependencies in a module"),
     ("concrete_in_impl", "#[::entrait::entrait]\nimpl T for X { fn f(d: &\n/*@off*/ Concrete\n) {} }", r"concrete dependency in an impl block"),
+    ("dyn_in_mod", "#[::entrait::entrait(Foo)]\nmod m { pub fn f(d: &\n/*@off*/ dyn Clock\n) {} }", r"concrete dependencies in a module"),
+    ("dyn_in_impl", "#[::entrait::entrait]\nimpl T for X { fn f(d: &\n/*@off*/ dyn Clock\n, a: u8) {} }", r"concrete dependency in an impl block"),
     ("unknown_option", "#[::entrait::entrait(Foo,\n/*@off*/ bogus\n)]\nfn f<D>(d: &D) {}", r'Unkonwn entrait option "bogus"'),
     ("unknown_q_option", "#[::entrait::entrait(Foo, ?\n/*@off*/ Sync\n)]\nfn f<D>(d: &D) {}", r'Unkonwn entrait option "Sync"'),
     ("unsupported_delegate_on_fn", "#[::entrait::entrait(Foo,\n/*@off*/ delegate_by\n = ref)]\nfn f<D>(d: &D) {}", r"Unsupported option"),
@@ -113,7 +115,8 @@ def gen_misuses(rng, n):
     ok_fns = ["pub fn ok%d<D>(d: &D) {}", "pub fn ok%d(d: &impl Sized) -> u8 { 0 }", "pub async fn ok%d<D: Clone>(d: &D, a: u8) -> u8 { a }",
               "pub(crate) fn ok%d<D>(_: &D, (a, b): (u8, u8)) {}", "pub fn ok%d<D>(d: D, a: &str) {}", "fn private%d() {}"]
     ok_impl_fns = ["fn ok%d<D>(d: &D) {}", "fn ok%d(d: &impl Sized) -> u8 { 0 }", "async fn ok%d<D: Clone>(d: &D, a: u8) -> u8 { a }", "pub fn ok%d<D>(d: &D, _: u8) {}"]
-    concrete = ["Concrete", "some::Concrete", "crate::Concrete", "Concrete<u8>", "super::App", "Vec<u8>", "::abs::Concrete"]
+    concrete = ["Concrete", "some::Concrete", "crate::Concrete", "Concrete<u8>", "super::App", "Vec<u8>", "::abs::Concrete",
+                "dyn Tr", "dyn some::Tr", "(dyn Tr + Sync)", "dyn Fn(u8) -> u8", "[u8]", "(u8, u8)", "str"]   # trait objects & co. are concrete too (round 19)
     self_forms = ["&self", "self", "&mut self", "mut self", "self: Box<Self>", "self: &Self", "&'a self"]
     valid = {"fn": ["export", "?Send", "mock_api = M", "unimock = false", "mockall = false", "debug = false", "no_deps = false"],
              "mod": ["export", "?Send", "mock_api = M", "unimock = false", "mockall = false", "debug = false"],
